@@ -7,6 +7,7 @@ import (
 	"go/types"
 	"regexp"
 	"sort"
+	"strconv"
 	"strings"
 
 	"golang.org/x/tools/go/ssa"
@@ -247,6 +248,10 @@ func (e *enc) run() (ok bool) {
 		}
 		e.curInstr = nil
 		e.heapAt[b] = e.heap.clone()
+		if e.assertsEnd == nil {
+			e.assertsEnd = map[*ssa.BasicBlock]int{}
+		}
+		e.assertsEnd[b] = len(e.asserts)
 	}
 	e.loopObligations()
 	return true
@@ -584,6 +589,7 @@ func (e *enc) entryAssumptions() {
 		e.assume(fmt.Sprintf("(= %s 0)", e.hnameIn("G_n:"+k, e.entry)))
 	}
 	e.assumeIfaceRequires()
+	e.assumeGlobalInvariants()
 	if e.fc == nil {
 		return
 	}
@@ -799,21 +805,49 @@ func (e *enc) loopObligations() {
 			isBack := e.back[[2]*ssa.BasicBlock{p, h}]
 			env := e.loopEnv(h, p, e.heapAt[p])
 			path := fmt.Sprintf("(and %s %s)", e.reach[p], e.edgeCond(p, h))
+			// What holds on entry is established by the code before the loop: an entry obligation sees the
+			// assumptions made up to the end of the predecessor block only. (The invariant assumed at the
+			// head speaks about the same symbols wherever it mentions values the loop does not change;
+			// seen from here it would prove itself.) Facts produced while translating the clause go with it.
+			entryGoal := func(c Clause) (string, string, bool) {
+				before := len(e.asserts)
+				t, err := env.boolTerm(c.Expr)
+				if err != nil {
+					e.contractError(c, err)
+					return "", "", false
+				}
+				pth := path
+				if len(e.asserts) > before {
+					pth = "(and " + path + " " + strings.Join(e.asserts[before:], " ") + ")"
+					e.asserts = e.asserts[:before:before]
+				}
+				return t, pth, true
+			}
 			if !isBack {
 				for _, c := range lc.Entry {
-					t, err := env.boolTerm(c.Expr)
+					t, pth, ok := entryGoal(c)
+					if !ok {
+						continue
+					}
+					o := e.add("inv", fmt.Sprintf("loop%d:%s:at-entry", n, c.Label), token.NoPos, pth, t)
+					o.At = e.assertsEnd[p]
+				}
+			}
+			for _, c := range lc.Invariants {
+				var t, pth string
+				if isBack {
+					var err error
+					t, err = env.boolTerm(c.Expr)
 					if err != nil {
 						e.contractError(c, err)
 						continue
 					}
-					e.add("inv", fmt.Sprintf("loop%d:%s:at-entry", n, c.Label), token.NoPos, path, t)
-				}
-			}
-			for _, c := range lc.Invariants {
-				t, err := env.boolTerm(c.Expr)
-				if err != nil {
-					e.contractError(c, err)
-					continue
+					pth = path
+				} else {
+					var ok bool
+					if t, pth, ok = entryGoal(c); !ok {
+						continue
+					}
 				}
 				kind := "entry"
 				if isBack {
@@ -827,7 +861,10 @@ func (e *enc) loopObligations() {
 				if len(p.Instrs) > 0 {
 					pos = e.nearPos(p.Instrs[len(p.Instrs)-1])
 				}
-				e.add("inv", lbl, pos, path, t)
+				o := e.add("inv", lbl, pos, pth, t)
+				if !isBack {
+					o.At = e.assertsEnd[p]
+				}
 			}
 			if isBack {
 				for _, c := range lc.Step {
@@ -1196,4 +1233,138 @@ func (e *enc) loopStoresOnlyToOwnAllocs(h *ssa.BasicBlock, a string) ([]string, 
 		}
 	}
 	return own, true
+}
+
+// isPkgInit: the synthetic package initialiser or a declared init function.
+func isPkgInit(f *ssa.Function) bool {
+	if f.Signature.Recv() != nil || f.Parent() != nil {
+		return false
+	}
+	n := f.Name()
+	if n == "init" {
+		return true
+	}
+	if strings.HasPrefix(n, "init#") {
+		_, err := strconv.Atoi(n[5:])
+		return err == nil
+	}
+	return false
+}
+
+// reachedFromInit: functions of the repository a package initialiser may run (static calls,
+// function values and closures mentioned; transitive). They may see variables before the
+// initialiser has finished, so global invariants are not assumed in them.
+func (w *World) reachedFromInit() map[*ssa.Function]bool {
+	if w.initReach != nil {
+		return w.initReach
+	}
+	w.initReach = map[*ssa.Function]bool{}
+	var work []*ssa.Function
+	for _, f := range w.FuncList {
+		if isPkgInit(f) {
+			w.initReach[f] = true
+			work = append(work, f)
+		}
+	}
+	for len(work) > 0 {
+		f := work[len(work)-1]
+		work = work[:len(work)-1]
+		for _, b := range f.Blocks {
+			for _, ins := range b.Instrs {
+				var ops []*ssa.Value
+				for _, op := range ins.Operands(ops) {
+					if op == nil || *op == nil {
+						continue
+					}
+					var g *ssa.Function
+					switch x := (*op).(type) {
+					case *ssa.Function:
+						g = x
+					case *ssa.MakeClosure:
+						g, _ = x.Fn.(*ssa.Function)
+					}
+					if g != nil && !w.initReach[g] && !isPkgInit(g) && len(g.Blocks) > 0 {
+						w.initReach[g] = true
+						work = append(work, g)
+					}
+				}
+				// interface method calls: every implementation may run
+				if c, ok := ins.(ssa.CallInstruction); ok && c.Common().IsInvoke() {
+					w.immutableArr("") // computes w.Mod
+					for _, g := range w.Mod.implMethods(c.Common().Value.Type(), c.Common().Method) {
+						if !w.initReach[g] {
+							w.initReach[g] = true
+							work = append(work, g)
+						}
+					}
+				}
+			}
+		}
+	}
+	return w.initReach
+}
+
+// assumeGlobalInvariants: see GlobalInv. In the package initialiser the guard variable is false on entry.
+func (e *enc) assumeGlobalInvariants() {
+	f := e.f
+	if f.Pkg == nil {
+		return
+	}
+	if f.Name() == "init" && f.Synthetic != "" {
+		if g := f.Pkg.Var("init$guard"); g != nil {
+			e.val(g)
+			if l, ok := e.locs[g]; ok {
+				e.assume("(not " + e.loadIn(l, e.entry) + ")")
+			}
+		}
+		return
+	}
+	pkg := f.Pkg.Pkg.Name()
+	for _, gi := range e.w.CS.GlobalInvs {
+		if gi.Pkg != pkg {
+			continue
+		}
+		ids := map[string]bool{}
+		cexprIdents(gi.Expr, ids)
+		uses := false
+		okAll := true
+		for n := range ids {
+			g := f.Pkg.Var(n)
+			if g == nil {
+				continue
+			}
+			usesG := false
+			for _, b := range f.Blocks {
+				for _, ins := range b.Instrs {
+					var ops []*ssa.Value
+					for _, op := range ins.Operands(ops) {
+						if op != nil && *op == ssa.Value(g) {
+							usesG = true
+						}
+					}
+				}
+			}
+			uses = uses || usesG
+			if !e.w.immutableArr(arrGlobal(g)) {
+				okAll = false
+				if usesG {
+					e.contractError(gi.Clause, fmt.Errorf("variable %s is written outside the package initialisers (or its address escapes): no global invariant over it", n))
+				}
+			}
+		}
+		if !uses || !okAll || e.w.reachedFromInit()[f] {
+			continue
+		}
+		env := e.newEnv()
+		env.st = e.entry
+		env.old = e.entry
+		t, err := env.boolTerm(gi.Expr)
+		if err != nil {
+			e.contractError(gi.Clause, err)
+			continue
+		}
+		e.assume(t)
+		e.usedGlobalInvs = append(e.usedGlobalInvs, gi)
+		e.assumptions[fmt.Sprintf("global invariant %s of package %s assumed on entry of %s (proved as a postcondition of %s.init under %s; its variables are written by package initialisers only)", gi.Label, pkg, e.key, pkg, strings.Join(gi.Props, ","))] = true
+	}
 }
